@@ -333,8 +333,11 @@ def _r6(ctx):
                     if fact.kind == "attrstore" and fact.target in ("reactants", "products", "_reactants", "_products") \
                             and fact.extra.get("obj") == ("param", "self"):
                         n_sites += 1
-                        ok, why = _filtered_create(simp(fact.value))
+                        ok, why = _filtered_create(simp(fact.value), fl)
                         key = f"{ci.name}.{mname}:{fact.target}"
+                        if ok is None:
+                            ctx.unrec("R6", key, (f, fact.line), why + ": " + show(simp(fact.value))[:120])
+                            continue
                         ctx.check(ok, "R6", key, (f, fact.line),
                                   "list built from self._create_species(..) values with falsy (pseudo-element) results filtered out" if ok else why,
                                   found=None if ok else show(simp(fact.value))[:160])
@@ -394,21 +397,44 @@ def _r6(ctx):
               found="; ".join(f"{show(v)[:40]} if {[('' if p else 'not ') + show(g)[:60] for g, p in gs]}" for v, gs in rets))
 
 
-def _filtered_create(v):
-    """[] | IfExp of such | one `self._create_species(..)` per element of a sequence, kept only when truthy."""
-    if v[0] == "ifexp":
-        a, wa = _filtered_create(v[2])
-        b, wb = _filtered_create(v[3])
-        return a and b, wa or wb
+def _filtered_create(v, fl=None):
+    """[] | IfExp of such | one `self._create_species(..)` per element of a sequence, kept only when truthy -- written as a
+    comprehension or as a local list filled by guarded appends.  -> (True | False | None (shape not understood), why)"""
+    from ..valueflow import split_guard
+
+    def is_create(x):
+        return x[0] == "meth" and x[1] == ("param", "self") and x[2] == "_create_species"
+
+    if v[0] in ("ifexp", "phi"):
+        a, wa = _filtered_create(v[2], fl)
+        b, wb = _filtered_create(v[3], fl)
+        return (None if a is None or b is None else a and b), wa or wb
     if v == ("list", ()):
+        return True, ""
+    if v[0] == "acc" and fl is not None:
+        # a local list: created empty, then only appended to; every appended value is a created species guarded by its own truth
+        facts = [f for f in fl.facts if f.target == v[1]]
+        inits = [f for f in facts if f.kind == "init"]
+        apps = [f for f in facts if f.kind == "append"]
+        if len(inits) != 1 or simp(inits[0].value) != ("list", ()) or len(inits) + len(apps) != len(facts) or not apps:
+            return None, f"the list `{v[1]}` is not `[]` followed by appends only"
+        for f in apps:
+            val = simp(f.value)
+            if not is_create(val):
+                return False, "elements are not produced by self._create_species(..)"
+            conds = [g for gd in f.guards for g in split_guard((simp(gd[0]), gd[1]))]
+            if (val, True) not in conds:
+                return False, "no truthiness filter on the created species: a marker token would enter the list as None"
         return True, ""
     m = as_map(v) if v[0] in ("comp", "copy") else None
     if m is None:
-        return False, f"reactant/product list assigned from an unrecognised expression"
+        return None, f"reactant/product list assigned from an unrecognised expression"
     bv, body, base, ifs = m
-    if not (body[0] == "meth" and body[1] == ("param", "self") and body[2] == "_create_species"):
+    if not is_create(body):
         return False, "elements are not produced by self._create_species(..)"
-    if body not in ifs:
+    # `if a and b` is `if a if b`
+    conds = [g for c in ifs for g in split_guard((simp(c), True))]
+    if (body, True) not in conds:
         return False, "no truthiness filter on the created species: a marker token would enter the list as None"
     return True, ""
 
@@ -575,6 +601,7 @@ MUTANTS = [
     {"name": "stmwrap-breaks-words", "file": "naunet/utilities.py", "old": "break_long_words=False", "new": "break_long_words=True", "rules": ["R8"]},
     {"name": "textwrapper-breaks-words", "file": "naunet/utilities.py", "old": "wrappedlist = wrap(text, width - indent, break_long_words=False)", "new": "import textwrap\n    wrappedlist = textwrap.TextWrapper(width=width - indent).wrap(text)", "rules": ["R8"]},
     {"name": "kernel-set-drops-rebase", "file": TEMPLATES["cvode"], "old": '            {{ eq | replace("ydot[IDX", "ydot[yistart + IDX") | replace("y[IDX", "y_cur[IDX") | stmwrap(80, 12) }}', "new": '            {% set dev = eq | replace("ydot[IDX", "ydot[yistart + IDX") -%}\n            {{ dev | stmwrap(80, 12) }}', "rules": ["R8"]},
+    {"name": "reactants-append-loop-unfiltered", "file": 'naunet/reactions/reaction.py', "old": '        self.reactants = [\n            self._create_species(r.strip())\n            for r in rps[0:3]\n            if self._create_species(r.strip())\n        ]\n', "new": '        found = []\n        for col in rps[0:3]:\n            nm = col.strip()\n            found.append(self._create_species(nm))\n        self.reactants = found\n', "rules": ["R6"]},
     {"name": "lhs-sorted", "file": T, "old": 'lhs = [f"ydot[IDX_{x.alias}]" for x in species]', "new": 'lhs = [f"ydot[IDX_{x.alias}]" for x in sorted(species)]', "rules": ["R4"]},
     {"name": "create-species-no-filter", "file": "naunet/reactions/reaction.py", "old": "[self._create_species(r) for r in reactants if self._create_species(r)]", "new": "[self._create_species(r) for r in reactants]", "rules": ["R6"]},
     {"name": "tgas-macro", "file": "naunet/templates/base/cpp/include/naunet_macros.h.j2", "old": "#define IDX_TGAS NSPECIES", "new": "#define IDX_TGAS NEQUATIONS", "rules": ["R4"]},
@@ -594,5 +621,7 @@ BENIGN = [
     {"name": "kernel-filters-via-macro", "edits": [
         {"file": TEMPLATES["cvode"], "old": "#include <math.h>\n", "new": '{% macro rebased(t) %}{{ t | replace("ydot[IDX", "ydot[yistart + IDX") | replace("y[IDX", "y_cur[IDX") }}{% endmacro %}\n#include <math.h>\n', "count": 1},
         {"file": TEMPLATES["cvode"], "old": '            {{ eq | replace("ydot[IDX", "ydot[yistart + IDX") | replace("y[IDX", "y_cur[IDX") | stmwrap(80, 12) }}', "new": '            {{ rebased(eq) | stmwrap(80, 12) }}'}]},
+    {"name": "reactants-append-loop", "file": 'naunet/reactions/reaction.py', "old": '        self.reactants = [\n            self._create_species(r.strip())\n            for r in rps[0:3]\n            if self._create_species(r.strip())\n        ]\n', "new": '        found = []\n        for col in rps[0:3]:\n            nm = col.strip()\n            if self._create_species(nm):\n                found.append(self._create_species(nm))\n        self.reactants = found\n'},
+    {"name": "reactants-filter-conjunction", "file": 'naunet/reactions/reaction.py', "old": '        self.reactants = [\n            self._create_species(r.strip())\n            for r in rps[0:3]\n            if self._create_species(r.strip())\n        ]\n', "new": '        self.reactants = [\n            self._create_species(r.strip())\n            for r in rps[0:3]\n            if r.strip() != "" and self._create_species(r.strip())\n        ]\n'},
     {"name": "template-reindent", "file": TEMPLATES["cvode"], "old": "    {% for eq in ode.fex -%}\n        {{ eq | stmwrap(80, 8) }}", "new": "    {% for eq in ode.fex -%}\n      {{ eq|stmwrap(80, 6) }}"},
 ]
